@@ -124,6 +124,7 @@ func c02HostRuleSet(hs []*rules.HostRule) string {
 }
 
 func c02Gen(r *rng, n int, w *bufio.Writer) {
+	bReseed(r)
 	names := c02Names(r)
 	for i := 0; i < n; {
 		nLists := 1 + r.n(3)
